@@ -109,6 +109,17 @@ def cases(tier, seed, args):
         for i in range(n):
             sc = scenario(rng, ml.KINDS[i % 7], tier)
             out.append(dict(t='model', **sc))
+        # rank-deficient class scatter under every cACG normalisation: fewer frames than channels, one M-step, then predict
+        for i in range(6 if q else 36):
+            sc = scenario(rng, 'cacgmm', tier)
+            # (no all-zero frames here: a class whose scatter is exactly zero is the recorded C09 finding zero_scatter_class)
+            sc.update(regime=['separable', 'regular'][i % 2], init='hard', dtype='float64', K=2, D=4 + i % 2, N=3 + i % 2, iterations=1,
+                      sam=False, aligner=False, saliency=False, L=[[], [2]][(i // 2) % 2])
+            sc['opts'] = dict(covariance_norm=['trace', False, 'eigenvalue'][i % 3], affiliation_eps=0.0, hermitize=True)
+            sc.pop('wca_pos', None)
+            if sc['wca'] not in [(-1,), -1, [-1]]:
+                sc['wca'], sc['wca_type'] = (-1,), 'tuple'
+            out.append(dict(t='model', **sc))
         # clipping constants that are visible at Flt resolution on confident (separable) posteriors: the E-steps clip, the
         # final predict / fit_predict posterior never does
         for i in range(7 if q else 42):
@@ -152,6 +163,16 @@ def cases(tier, seed, args):
             if i % 11 == 0 and sc['kind'] not in ml.INTEGRATION:
                 sc['N'] = max(2, sc['D'] - 1)         # fewer frames than channels
                 sc['K'] = 2
+            out.append(dict(t='domain', **sc))
+        # exactly zero variances: a class owning a single frame (hard start, one M-step), constant coordinates
+        for i in range(6 if q else 36):
+            sc = scenario(rng, 'gmm', tier)
+            sc.update(regime=['regular', 'degenerate'][i % 2], init='hard', dtype='float64', K=2 + i % 2, D=2 + i % 3, iterations=1,
+                      saliency=False, L=[], sam=False, aligner=False)
+            sc['N'] = sc['K'] + (i // 3) % 2          # N = K: every class owns exactly one frame
+            sc['opts'] = dict(covariance_type=['diagonal', 'spherical', 'full'][i % 3])
+            sc.pop('wca_pos', None)
+            sc['wca'], sc['wca_type'] = (-1,), 'tuple'
             out.append(dict(t='domain', **sc))
         # fixed input reproducing the recorded known finding (known_findings.json, C09)
         import json as _json, os as _os
